@@ -1102,13 +1102,14 @@ fn v4_sighashes(t: &MTx, coins: &[Coin], idx: usize) -> Vec<(u32, Option<[u8; 32
     v
 }
 
-fn emit_v4_mut(g: &mut Gen, t: &MTx, coins: &[Coin], field: u32) -> bool {
+fn emit_v4_mut(g: &mut Gen, t: &MTx, coins: &[Coin], field: u32, own: bool) -> bool {
     let n_in = t.n_in();
-    let idx = if n_in > 0 { g.rng.below(n_in as u64) as usize } else { 0 };
     let (m, c, which) = match mutate(g, t, coins, field) {
         Some(x) => x,
         None => return false,
     };
+    // sign the input/output position that was mutated (`own`) or another one
+    let idx = if n_in == 0 { 0 } else if own { which.min(n_in - 1) } else { (which + 1) % n_in };
     if coq_tx_any(t) == coq_tx_any(&m) {
         return false;
     }
@@ -1148,6 +1149,26 @@ fn main() {
     let mut g = Gen::new(a.seed, 4);
     let thorough = a.thorough() || a.search;
     let mut n_cases = 0u64;
+
+    // --- probe (not part of the check): v6, anchor of a non-first Sapling spend ----------------
+    if std::env::var("C04_PROBE").is_ok() {
+        let mut gp = Gen::new(a.seed, 9);
+        let (mut t, coins) = gp.tx(true, 2, false, true);
+        t.sap = gp.sapling(2, 1, true);
+        let donor = gp.spend();
+        let mut m = t.clone();
+        let s = m.sap.as_mut().unwrap();
+        s.spends[1] = with_spend(&s.spends[1], |p| p.anchor = *donor.anchor());
+        let (o1, o2) = (observe(&t, &coins, &[]), observe(&m, &coins, &[]));
+        eprintln!(
+            "probe v6 spends[1].anchor changed: txid_equal={} auth_equal={} shielded_sighash_equal={} serialisation_equal={}",
+            o1.txid == o2.txid,
+            o1.auth == o2.auth,
+            o1.shsig == o2.shsig,
+            ser(&t.authorized().freeze().unwrap()) == ser(&m.authorized().freeze().unwrap())
+        );
+        return;
+    }
 
     // --- ZIP 244 vectors shipped in the repository -------------------------------------------
     {
@@ -1269,7 +1290,16 @@ fn main() {
                 }
             }
             for f in TX_FIELDS {
-                if emit_mut(&mut g, &t, &coins, f) {
+                let ok = if f == 4 {
+                    // the version switch needs bundles that both formats can carry
+                    let mut t4 = t.clone();
+                    t4.orch = None;
+                    t4.iron = None;
+                    emit_mut(&mut g, &t4, &coins, f)
+                } else {
+                    emit_mut(&mut g, &t, &coins, f)
+                };
+                if ok {
                     n_cases += 1;
                 }
             }
@@ -1334,7 +1364,7 @@ fn main() {
             let x = g.tx(false, 2, false, true);
             t = x.0;
             coins = x.1;
-            if t.n_in() >= 1 && t.n_out() >= 1 && t.sap.as_ref().map_or(false, |s| !s.spends.is_empty() && !s.outputs.is_empty()) {
+            if t.n_in() == 2 && t.n_out() >= 1 + (r % 2) as usize && t.sap.as_ref().map_or(false, |s| !s.spends.is_empty() && !s.outputs.is_empty()) {
                 break;
             }
         }
@@ -1348,8 +1378,10 @@ fn main() {
             t.sap = None;
         }
         for f in [1u32, 2, 10, 11, 12, 13, 20, 21, 30, 31, 32, 33, 34, 35, 40, 41, 42, 43, 44, 45, 46, 47, 48, 49] {
-            if emit_v4_mut(&mut g, &t, &coins, f) {
-                n_cases += 1;
+            for own in [true, false] {
+                if (own || (10..=21).contains(&f)) && emit_v4_mut(&mut g, &t, &coins, f, own) {
+                    n_cases += 1;
+                }
             }
         }
     }
